@@ -5,6 +5,7 @@
 use risinglight::storage::verif_hooks as h;
 use serde_json::{Value, json};
 mod sql;
+mod col;
 
 fn le_u32(b: &[u8]) -> u32 { let mut a = [0u8; 4]; a[..b.len().min(4)].copy_from_slice(&b[..b.len().min(4)]); u32::from_le_bytes(a) }
 fn le_i32(b: &[u8]) -> i32 { le_u32(b) as i32 }
@@ -218,6 +219,7 @@ fn search(unit: &str, depth: usize) -> Value {
                 if let Err(e) = h::varint_roundtrip(v) { return json!({"found": true, "tried": tried, "input": {"v": v}, "observed": e}); }
             }
         }
+        "column" => return col::column(depth),
         "sqlorder" => return sql::order(depth),
         "sqlrange" => return sql::range(depth),
         "sqlagg" => return sql::agg(depth),
